@@ -225,14 +225,26 @@ class Ctx:
             for it in items:
                 fn(self, it)
             return
+        from concurrent.futures import ProcessPoolExecutor, as_completed
+        from concurrent.futures.process import BrokenProcessPool
         mp = multiprocessing.get_context("fork")
         args = [(fn.__module__, fn.__name__, self.prop, self.tier, self.seed,
                  tuple(self.known_buckets), it) for it in items]
-        with mp.Pool(nproc, maxtasksperchild=None) as pool:
-            for res in pool.imap_unordered(_worker, args, chunksize=1):
+        # an executor (not multiprocessing.Pool): when a worker is killed - a broken library can eat all memory - the
+        # pending results fail with BrokenProcessPool instead of the run waiting forever for a task that is lost
+        ex = ProcessPoolExecutor(nproc, mp_context=mp, initializer=_init_worker)
+        try:
+            futs = [ex.submit(_worker, a) for a in args]
+            for f in as_completed(futs):
+                try:
+                    res = f.result()
+                except BrokenProcessPool:
+                    raise HarnessError("a worker process died (killed, out of memory?) while running " + fn.__name__)
                 if "error" in res:
                     raise HarnessError("worker failed:\n" + res["error"])
                 self.merge(res)
+        finally:
+            ex.shutdown(wait=False, cancel_futures=True)
 
 
 def _size(case):
@@ -240,6 +252,21 @@ def _size(case):
         return len(json.dumps(case, default=repr))
     except Exception:
         return 1 << 30
+
+
+WORKER_ADDRESS_SPACE = 8 << 30
+
+
+def _init_worker():
+    """a runaway allocation in the code under test becomes a MemoryError inside the case that caused it (which the
+    oracles report like any other foreign exception) instead of an out-of-memory kill of some process"""
+    import resource
+    try:
+        soft, hard = resource.getrlimit(resource.RLIMIT_AS)
+        lim = WORKER_ADDRESS_SPACE if hard == resource.RLIM_INFINITY else min(WORKER_ADDRESS_SPACE, hard)
+        resource.setrlimit(resource.RLIMIT_AS, (lim, hard))
+    except (ValueError, OSError):
+        pass
 
 
 def _worker(arg):
@@ -259,6 +286,8 @@ def _worker(arg):
 
 SHRINK_CALL_BUDGET = {"quick": 300, "thorough": 2000}
 MAX_BUCKET_ROUNDS = 6
+SHRINK_WALL_S = {"quick": 20.0, "thorough": 120.0}     # wall clock spent on shrinking one bucket
+ROUNDS_WALL_S = {"quick": 45.0, "thorough": 400.0}     # no further exclusion round is started after this much time
 
 
 SLOW_CASE_S = 3.0
@@ -292,7 +321,11 @@ def hyp_search(ctx, label, strategy, body, max_examples, shard=0, stateful_steps
 
     budget = SHRINK_CALL_BUDGET[ctx.tier]
     excluded = set()
+    t_search = time.time()
     for rnd in range(MAX_BUCKET_ROUNDS):
+        if rnd and time.time() - t_search > ROUNDS_WALL_S[ctx.tier]:
+            ctx.counters["exclusion-rounds-cut-short-by-time"] += 1
+            break
         st = {"bucket": None, "last": None, "after": 0}
 
         def run_one(case):
@@ -300,7 +333,7 @@ def hyp_search(ctx, label, strategy, body, max_examples, shard=0, stateful_steps
                 return
             if st["bucket"] is not None:
                 st["after"] += 1
-                if st["after"] > budget:
+                if st["after"] > budget or time.time() - st["t_first"] > SHRINK_WALL_S[ctx.tier]:
                     return
             t_case = time.time()
             try:
@@ -315,6 +348,7 @@ def hyp_search(ctx, label, strategy, body, max_examples, shard=0, stateful_steps
                     return
                 if st["bucket"] is None:
                     st["bucket"] = v.bucket
+                    st["t_first"] = time.time()
                 if v.bucket != st["bucket"]:
                     return
                 st["last"] = v
@@ -363,7 +397,27 @@ def hyp_machine(ctx, label, machine_cls, max_examples, steps, shard=0):
     from hypothesis.stateful import run_state_machine_as_test
 
     excluded = set()
+    t_search = time.time()
+
+    class Bounded(machine_cls):
+        """every run after the first failure counts against the shrink budget (calls and wall clock); once it is used
+        up a run ends at once with the recorded violation, so that Hypothesis' shrinker finishes immediately - the
+        violation reported is the last real one, which the runner keeps itself"""
+
+        def __init__(self):
+            st = machine_cls.vf_state
+            if st["bucket"] is not None and st["last"] is not None:
+                st["runs_after"] = st.get("runs_after", 0) + 1
+                if st["runs_after"] > st["budget"] or time.time() - st["t_first"] > SHRINK_WALL_S[ctx.tier]:
+                    raise st["last"]
+            super().__init__()
+
+    Bounded.__name__ = machine_cls.__name__
+    Bounded.__qualname__ = machine_cls.__qualname__
     for rnd in range(MAX_BUCKET_ROUNDS):
+        if rnd and time.time() - t_search > ROUNDS_WALL_S[ctx.tier]:
+            ctx.counters["exclusion-rounds-cut-short-by-time"] += 1
+            break
         machine_cls.vf_state = {"bucket": None, "last": None, "after": 0,
                                 "excluded": excluded, "budget": SHRINK_CALL_BUDGET[ctx.tier],
                                 "ctx": ctx}
@@ -378,7 +432,7 @@ def hyp_machine(ctx, label, machine_cls, max_examples, steps, shard=0):
             suppress_health_check=list(HealthCheck),
             phases=[Phase.generate, Phase.shrink],
         )
-        seeded = hypothesis.seed(derive_seed(ctx.seed, ctx.prop, label, shard, rnd))(machine_cls)
+        seeded = hypothesis.seed(derive_seed(ctx.seed, ctx.prop, label, shard, rnd))(Bounded)
         try:
             run_state_machine_as_test(seeded, settings=s)
         except Violation:
@@ -409,6 +463,7 @@ def machine_violation(machine, bucket, message, case):
         return
     if st["bucket"] is None:
         st["bucket"] = bucket
+        st["t_first"] = time.time()
     if bucket != st["bucket"]:
         return
     st["after"] += 1
